@@ -95,6 +95,20 @@ fn construct(st: &mut Stats, p: i64, q: i64) {
             } else if p.abs() > q.abs() {
                 st.inc("nontrivial");
             }
+            // every conversion stores the canonical representative (== compares values, so it cannot see an unreduced or
+            // out-of-range stored fraction) and classifies like Phase::new
+            let mut variants: Vec<(&str, Phase)> = vec![("tuple", b), ("tuple-negated", c), ("rational-into", Rational64::new(p, q).into())];
+            if q == 1 {
+                variants.push(("integer", Phase::from(p)));
+                variants.push(("integer-negated-twice", -Phase::from(-p)));
+            }
+            for (name, v) in variants {
+                if !stored_ok(&v) || as_big(&v) != want {
+                    viol(st, &format!("construct|{}|not-canonical", name), format!("{}/{} through the {} conversion is stored as {}, expected {}", p, q, name, v.to_rational(), want), w.clone());
+                } else if (v.is_pauli(), v.is_clifford(), v.is_proper_clifford(), v.is_t()) != (a.is_pauli(), a.is_clifford(), a.is_proper_clifford(), a.is_t()) {
+                    viol(st, &format!("construct|{}|classified-differently", name), format!("{}/{}", p, q), w.clone());
+                }
+            }
             // classification depends only on the class
             let two = br(2, 1);
             let is_int = want.is_integer();
